@@ -5,6 +5,7 @@ import os
 import random
 import types
 
+from .. import lib as vlib
 from ..gen import jsonvals, keys as gkeys, metadata as gmd
 from ..monitors import boundary, gnupg
 from ..refs import canonjson, ed25519, models, openpgp
@@ -411,9 +412,17 @@ def run_values(spec, rec, lib):
     """write -> load -> write fix-point on bare hostile values (no envelope)"""
     rng = random.Random(spec["seed"])
     C = lib.common
-    fn = os.path.join(spec["scratch"], "v.json")
+    vdir = os.path.join(spec["scratch"], "values")
+    os.makedirs(vdir, exist_ok=True)
+    names = vlib.fs_names(["v.json", "v.json", "re\u0301podata.json", "\u212bngstrom.json", "caf\u00e9.json", "na\u0308me with space.json",
+                           "\uff21\uff22.json", ".hidden.json", "\u2126.json", "x\u0327\u0301.json"])
     vfp = boundary.value_fingerprint
     for i in range(spec["count"]):
+        # the file is the one the caller NAMED: names that a normalising layer would respell (decomposed accents, compatibility
+        # characters) stay as given on a file system that does not normalise
+        name = names[i % len(names)]
+        fn = os.path.join(vdir, name)
+        listing_before = set(os.listdir(vdir))
         v = jsonvals.rand_value(rng, 0, 5, 4) if rng.random() < 0.8 else jsonvals.rand_scalar(rng)
         if c07.has_pair(v):
             continue
@@ -440,6 +449,12 @@ def run_values(spec, rec, lib):
         rec.case("value|" + vfp(v), nontrivial=c07.nontrivial(v))
         if not l.accepted:
             rec.violation(boundary.mechanism("roundtrip", "write+load", "value", l), "write/load of a JSON value failed", case)
+            continue
+        listing_after = set(os.listdir(vdir))
+        if name not in listing_after or (listing_after - listing_before) - {name}:
+            rec.violation("file-name/write_metadata_to_file/written-under-another-name",
+                          "after writing to %r the directory gained %r (the named file %s)" % (name, sorted((listing_after - listing_before) - {name}),
+                                                                                          "exists" if name in listing_after else "does not exist"), case)
             continue
         fb = open(fn, "rb").read()
         if fb != canonjson.canon(v):
